@@ -35,6 +35,37 @@ def fold( e, env=None ):
             return v[k]
         except Exception as exc:
             raise NoFold( str( exc ))
+    if isinstance( e, ast.Compare ):
+        left = fold( e.left, env )
+        for op, c in zip( e.ops, e.comparators ):
+            right = fold( c, env )
+            try:
+                if isinstance( op, ast.Eq ): r = left == right
+                elif isinstance( op, ast.NotEq ): r = left != right
+                elif isinstance( op, ast.In ): r = left in right
+                elif isinstance( op, ast.NotIn ): r = left not in right
+                elif isinstance( op, ast.Lt ): r = left < right
+                elif isinstance( op, ast.LtE ): r = left <= right
+                elif isinstance( op, ast.Gt ): r = left > right
+                elif isinstance( op, ast.GtE ): r = left >= right
+                elif isinstance( op, ast.Is ): r = left is right
+                elif isinstance( op, ast.IsNot ): r = left is not right
+                else: raise NoFold( 'cmp op' )
+            except TypeError as exc:
+                raise NoFold( str( exc ))
+            if not r:
+                return False
+            left = right
+        return True
+    if isinstance( e, ast.BoolOp ):
+        v = None
+        for x in e.values:
+            v = fold( x, env )
+            if isinstance( e.op, ast.Or ) and v: return v
+            if isinstance( e.op, ast.And ) and not v: return v
+        return v
+    if isinstance( e, ast.IfExp ):
+        return fold( e.body, env ) if fold( e.test, env ) else fold( e.orelse, env )
     if isinstance( e, ( ast.Name, ast.Attribute )) and env is not None:
         from .core import dotted
         d = dotted( e )
